@@ -201,7 +201,7 @@ class Check:
         os.makedirs(REPLAY_DIR, exist_ok=True)
         for n, sig in enumerate(unknown):
             v = self.violations[sig]
-            if n >= 25:
+            if n >= int(os.environ.get("VERIF_MAXREPORT", "25")):
                 print(f"  ... and {len(unknown) - 25} more violation signatures (not written out)")
                 break
             digest = hashlib.sha1(sig.encode()).hexdigest()[:10]
